@@ -97,6 +97,15 @@ CLAIMED = {
         'prepare_branch/value_from_branch come from the translator.',
    technique='Coq proof (refinement of two decoders to one ideal arithmetic-decoder state) + correspondence check on op scripts',
    ref='DESIGN.md section 6 C15'),
+ 'C08': dict(
+   text='Coq theorem accessors_spec: for every well-formed container c (simple lossy, simple lossless, extended still, animated; any chunk order, unknown chunks, odd payloads with padding, '
+        'duplicate metadata, 0..n frames) the model of WebPDecoder::new on serialize c succeeds and dimensions, has_alpha, is_animated, is_lossy, num_frames, loop_count, loop_duration, '
+        'ICC/EXIF/XMP (first payload or None) and output_buffer_size equal the values the record defines; for every memory limit each metadata getter returns the payload or MemoryLimitExceeded, '
+        'decided by the size test before any seek/allocation/read. wf requires ICC/EXIF/XMP flag = chunk presence and zero ALPH reserved bits.',
+   note='Trusted: Coq kernel; hand model Model/Container.v of read_data/read_chunk/accessors (reader = byte list + position; HashMap = association list, first wins) tied by correspondence on '
+        'generated well-formed and malformed files through the public API (error variant names compared); Spec/Container.v transcribes the container specification; libwebp WebPGetFeatures/WebPDemux as adequacy check.',
+   technique='Coq proof (parse . serialize = id by induction over the chunk list) + correspondence check on generated containers',
+   ref='DESIGN.md section 6 C08'),
 }
 PENDING = {}
 
